@@ -144,6 +144,8 @@ func style(t *rapid.T) *gen.Style {
 	st.TightAnn = rapid.IntRange(0, 4).Draw(t, "tightAnn") == 0
 	st.SplitAnn = rapid.SampledFrom([]int{0, 0, 0, 1, 2}).Draw(t, "splitAnn")
 	st.StrayNotes = rapid.SampledFrom([]int{0, 0, 1, 2, 3}).Draw(t, "strayNotes")
+	st.BlockInRules = rapid.SampledFrom([]int{0, 0, 0, 1, 2, 3}).Draw(t, "blockInRules") // ### c ### between the tokens of inline rule objects and behind them
+	st.KeyComments = rapid.SampledFrom([]int{0, 0, 0, 1, 2, 3}).Draw(t, "keyComments")
 	st.ItemNoteExtras = rapid.SampledFrom([]int{0, 0, 1, 2}).Draw(t, "itemNoteExtras") // blanks after enum item notes, notes on lines between the items
 	if st.JoinLines {
 		st.Comments, st.EmptyAnn, st.StrayNotes = 0, 0, 0 // joining lines only works where nothing else is written at the ends of lines
